@@ -129,11 +129,11 @@ def _set(j, path, new):
 def perturb(j, rng):
     """one edit of a document that a hand-written client could make: reorder keys / drop a key / add an unknown key /
     repeat a key (same or another value, anywhere in the object) / null a value / change a scalar's kind (integers up to 2^53
-    included: serde reads them where a float is expected) / drop or add an array element"""
+    included: serde reads them where a float is expected) / drop or add an array element / write an object as the array of its values"""
     paths = list(_paths(j))
     objs = [p for p in paths if isinstance(_get(j, p), tuple) and _get(j, p)[1]]
     arrs = [p for p in paths if isinstance(_get(j, p), list)]
-    kind = rng.choice(["shuffle", "shuffle", "drop", "drop", "unknown", "dup-key", "dup-key", "null", "null", "scalar", "scalar", "arr-drop", "arr-dup"])
+    kind = rng.choice(["shuffle", "shuffle", "drop", "drop", "unknown", "dup-key", "dup-key", "null", "null", "scalar", "scalar", "arr-drop", "arr-dup", "obj-to-array", "obj-to-array"])
     if kind in ("shuffle", "drop", "unknown", "dup-key") and objs:
         p = rng.choice(objs); kvs = list(_get(j, p)[1])
         if kind == "shuffle":
@@ -147,6 +147,15 @@ def perturb(j, rng):
         else:
             kvs.insert(rng.randrange(len(kvs) + 1), ("zz_unknown", rng.choice([1, "x", None, [], ("obj", [])])))
         return _set(j, p, ("obj", kvs)), kind
+    if kind == "obj-to-array" and objs:
+        # a struct written as the array of its field values (serde's visit_seq), possibly cut short or with one element more
+        p = rng.choice(objs); vals = [x for _, x in _get(j, p)[1]]
+        r = rng.random()
+        if r < 0.2 and vals:
+            vals = vals[:-1]
+        elif r < 0.3:
+            vals = vals + [None]
+        return _set(j, p, vals), kind
     if kind in ("arr-drop", "arr-dup") and arrs:
         p = rng.choice(arrs); l = list(_get(j, p))
         if kind == "arr-drop" and l:
@@ -287,6 +296,26 @@ def run():
                 except ValueError as ex:
                     ck.violation("prqlc wrote JSON python cannot read: %s" % ex, case)
 
+    # ------------------------------------------------------------------ 1b. the lexer hypothesis of c15_staged_eq_direct_if_lexer_rejects_nonfinite
+    # Hlex_finite: no token carries a non-finite float.  False of today's lexer exactly for the sources of the F14 class
+    # (has_nonfinite_literal); with fixes/F14-lexer-rejects-nonfinite-float.diff the lexer rejects those sources instead.
+    nonfinite_tok = set()
+    for p, a in zip(progs, harness("lex", [{"src": p} for p in progs])):
+        ck.count("lex-finite", p, nontrivial=False)
+        pred = has_nonfinite_literal(p)
+        if "ok" in a:
+            bad = [t for t in a["ok"] if isinstance(t.get("kind"), dict) and isinstance(t["kind"].get("Literal"), dict)
+                   and "Float" in t["kind"]["Literal"] and t["kind"]["Literal"]["Float"] is None]
+            if bad:
+                nonfinite_tok.add(p)
+            if bool(bad) != pred:
+                ck.violation("the F14 input predicate and the lexer disagree on `a literal overflows f64`",
+                             {"src": p, "kind": "lex-finite", "got": {"predicate": pred, "non_finite_tokens": len(bad)}})
+            else:
+                ck.stat("lex-finite", "hyp:lex_finite VIOLATED by the lexer (F14 source)" if bad else "hyp:lex_finite")
+        else:
+            ck.stat("lex-finite", "lexer rejects the source" + (" (overflowing literal)" if pred else ""))
+
     # ------------------------------------------------------------------ 2. model vs real serde on the implementation's own JSON
     small = []
     if env is not None:
@@ -299,6 +328,10 @@ def run():
             except S.DeErr as ex:
                 if real_rejects:
                     ck.stat("model-de-ser", "both-reject")     # the model agrees with serde (F14 documents)
+                    # Hparse_finite / Hresolve_finite: a stage value carries a non-finite float only if a token did
+                    if p not in nonfinite_tok:
+                        case["got"] = "a %s document is unreadable (non-finite float) although no token of the source is" % kind.upper()
+                        ck.violation("the parser or the resolver produced a non-finite float from finite tokens (Hparse_finite / Hresolve_finite)", case)
                 else:
                     case["got"] = "model rejects a document real serde accepts: %s" % ex
                     ck.violation("serde model rejects prqlc's own %s JSON: %s" % (kind.upper(), ex) + STALE, case)
@@ -487,7 +520,7 @@ def run():
     if env is not None and not stale and pr["ok"] and edited_small:
         ck.rng.shuffle(edited_small)
         # accepted repeated-key and scalar edits (map last-wins, unknown repeats, integer read as float) are rare: take them first
-        acc = sorted([e for e in edited_small if e[3] is not None], key=lambda e: e[1] not in ("dup-key", "scalar"))[:ck.n(24, 100)]
+        acc = sorted([e for e in edited_small if e[3] is not None], key=lambda e: e[1] not in ("dup-key", "scalar", "obj-to-array"))[:ck.n(24, 100)]
         rej = [e for e in edited_small if e[3] is None][:ck.n(24, 100)]
         es = acc + rej
         exprs = ["(match de GenSerde.env GenSerde.%s %s with Some v => (true, v) | None => (false, VNone) end)"
